@@ -66,13 +66,26 @@ def extract_extra() -> None:
     tree = ast.parse(src.read_text())
     cls = next(n for n in ast.walk(tree) if isinstance(n, ast.ClassDef) and n.name == "StaticFileHandler")
     handle = next(f for f in cls.body if isinstance(f, ast.FunctionDef) and f.name == "handle")
+    # module-level (and class-level) string constants, so that `meta=_META_NOT_FOUND` is read as its literal
+    consts = {}
+    for holder in (tree, cls):
+        for st in holder.body:
+            if isinstance(st, (ast.Assign, ast.AnnAssign)) and isinstance(getattr(st, "value", None), ast.Constant) and isinstance(st.value.value, str):
+                for tg in (st.targets if isinstance(st, ast.Assign) else [st.target]):
+                    if isinstance(tg, ast.Name):
+                        consts[tg.id] = st.value.value
     metas, prefixes = set(), set()
-    for n in ast.walk(handle):
+    # every response the class builds (in `handle` or in a private helper it was split into)
+    for n in ast.walk(cls):
         if isinstance(n, ast.Call) and getattr(n.func, "id", "") == "GeminiResponse":
             for kw in n.keywords:
                 if kw.arg != "meta":
                     continue
-                if isinstance(kw.value, ast.Constant) and isinstance(kw.value.value, str):
+                if isinstance(kw.value, ast.Name) and kw.value.id in consts:
+                    metas.add(consts[kw.value.id])
+                elif isinstance(kw.value, ast.Attribute) and kw.value.attr in consts:
+                    metas.add(consts[kw.value.attr])
+                elif isinstance(kw.value, ast.Constant) and isinstance(kw.value.value, str):
                     metas.add(kw.value.value)
                 elif isinstance(kw.value, ast.JoinedStr):
                     parts = kw.value.values
@@ -85,9 +98,9 @@ def extract_extra() -> None:
     reads = [n for f in cls.body if isinstance(f, ast.FunctionDef) for n in ast.walk(f)
              if isinstance(n, ast.Call) and ((isinstance(n.func, ast.Attribute) and n.func.attr in ("read_text", "read_bytes", "open", "read"))
                                              or getattr(n.func, "id", "") == "open")]
-    last = handle.body[-1]
-    single = (len(reads) == 1 and isinstance(reads[0].func, ast.Attribute) and reads[0].func.attr == "read_text"
-              and isinstance(last, ast.Try) and any(r is reads[0] for r in ast.walk(last)))
+    # the one read of file content sits in the body of a `try` (its OSError / UnicodeDecodeError are answered, not raised)
+    in_try = any(isinstance(tr, ast.Try) and any(r is reads[0] for b in tr.body for r in ast.walk(b)) for tr in ast.walk(cls)) if len(reads) == 1 else False
+    single = len(reads) == 1 and isinstance(reads[0].func, ast.Attribute) and reads[0].func.attr == "read_text" and in_try
     core.setup_import_path()
     from nauyaca.server.handler import StaticFileHandler
 
